@@ -36,7 +36,8 @@ class C13(props.Prop):
             jobs=(1, 2, 3, 4),
             model_style=rng.choice(['hash', 'mixed', 'contains']),
             out_modes=('', ),
-            text=text)
+            text=text,
+            p_idc=0.7)
         for rule in spec['model']['rules']:
             _set_p(rule[0], rng.choice([0.3, 0.5, 0.7]))
         k = rng.random()
@@ -45,6 +46,12 @@ class C13(props.Prop):
             spec['opts'] += ['--disable-all'] + [f'--{o}' for o in pick]
         elif k < 0.8:
             spec['opts'] += ['--no-erase-node', '--no-binary-reduction']
+        # the node-id counter is shared by all processes: in half of the cases
+        # (nearly) every access to it is a pre-emption point
+        import random
+        r2 = random.Random(spec['seed'] * 11 + 5)
+        if r2.random() < 0.5:
+            spec['sched']['idc_every'] = r2.choice([2, 3, 5, 7])
         return {'prop': 'C13', 'runs': [spec]}
 
     def run(self, case):
